@@ -348,11 +348,22 @@ def apply_observe(sess, op):
         for rop in op["render"]:
             apply_analysis(sess, rop)
             sess.outcomes.pop()
-    # final SUT == Shadow on full results (shadow had no analyses)
-    if op.get("final") and full is not None and ("C17" in E or "C15" in E):
+    # final SUT == twins that never saw the rejected calls / analyses
+    if op.get("final") and ("C17" in E or "C15" in E):
+        if full is None:
+            full = sess.full_obs(sut, ta)
         d = sess.full_diff(full, sess.full_obs(sess.shadow, ta))
         if d:
             sess._twin_fail("final full observation: " + d, op)
+        if sess.pristine is not None and not sess.had_restart:
+            psnap = sess.snapshot(sess.pristine)
+            d = sess.snap_diff(sess.prev_snap, psnap)
+            if d:
+                sess._twin_fail("final reports vs edits-only twin: " + d, op)
+            d = sess.full_diff(full, sess.full_obs(sess.pristine, ta))
+            if d:
+                sess._twin_fail("final results vs edits-only twin: " + d, op)
+            sess.stats["pristine_twin_compares"] += 1
 
 
 def _count_nontrivial(sess, table):
